@@ -36,12 +36,12 @@ def getVerilogModuleName(obj:Logic, noInstanceNumber=False):
         wires = [p.wire for p in obj.inPorts + obj.outPorts + obj.inOutPorts]
         
         if (len(set(wires)) == len(wires)):
-            return obj.structureName()
+            return obj.structureName() + getStructureClockSuffix(obj)
         
         # The same wire is connected to several ports of this object. The body
         # emitted for it names that wire after only one of the ports, so it must
         # not be shared with the other instances of the structure 
-        return obj.structureName() + "_" + hex(id(obj))[2:]
+        return obj.structureName() + getStructureClockSuffix(obj) + "_" + hex(id(obj))[2:]
     
     str = type(obj).__name__  
     if (not(noInstanceNumber)):
@@ -49,6 +49,27 @@ def getVerilogModuleName(obj:Logic, noInstanceNumber=False):
         str += "_" +sid[2:] 
         
     return str
+
+def getStructureClockSuffix(obj:Logic):
+    '''
+    The clock port of a module is named after the clock driver of the object it 
+    is emitted for, so a shared (named) structure can only be shared by the 
+    instances whose clock driver has the same name. Instances in clock domains 
+    named differently from the top level one get a module of their own.
+    '''
+    if not(any([x.isClockable() for x in obj.allLeaves()])):
+        return ""
+    
+    top = obj
+    while not(top.parent is None):
+        top = top.parent
+        
+    name = getObjectClockDriver(obj).name
+    
+    if (hasattr(top, 'clockDriver') and not(top.clockDriver is None) and (top.clockDriver.name == name)):
+        return ""
+    
+    return "_" + name
 
 def getWidthInfo(w:Wire):
     ww = w.getWidth()
